@@ -1,0 +1,7 @@
+//go:build !verif
+
+package common
+
+// VerifPoint marks an interleaving point for the verification harness.
+// Without the `verif` build tag it does nothing.
+func VerifPoint(string, ...any) {}
